@@ -1,7 +1,7 @@
 CFG = {
         "gen": ["Schemas"],
         "props": ["EraVerif.Props.C09"],
-        "required_theorems": [
+        "required_theorems": ["duration_accepted_is_representable", 
             "varint_roundtrip", "varint_any_encoding_accepted", "varint_minimal",
             "canonicalRaw_eq_encode_decode", "parse_of_any_serialisation", "canonical_of_any_reserialisation",
             "serialisations_of_one_value_agree", "record_order_irrelevant", "record_split_irrelevant",
